@@ -1,4 +1,5 @@
 import TF.Proofs.Tip5
+import TF.Proofs.GenBridgeTip5
 /-!
 # C02 — the Tip5 permutation and the fixed-length hashes conform to the Tip5 specification
 
@@ -193,5 +194,122 @@ theorem digest_hash_spec (d : Vector Nat 5) (hd : CanonV d) :
   have := digest_hash_refines _ c
   rw [e] at this
   exact this
+
+end TF.C02
+
+/-! ## regenerated-from-source bridge
+
+`Tip5::{split_and_lookup, sbox_layer, mds_generated, round, permutation, trace, new, hash_10}` are **also regenerated from `tip5.rs` on
+every run** (`TF/Gen/Tip5Loops.lean`, `TF.Gen.Loops.tip5_*`, written by `tools/rs2lean_bfe.py`; the helpers
+`raw_bytes`/`from_raw_bytes`/`raw_u64`/`from_raw_u64` come from `b_field_element.rs`, `TF/Gen/BFieldLoops.lean`): the
+state is the list of its 16 raw words, the BFieldElement operators are the translated `bfe_add`/`bfe_mul`, the tables
+are the regenerated tables, `for` loops are recursions on the number of remaining iterations.  The theorems below
+(proofs in `TF/Proofs/GenBridgeTip5.lean`) say that the regenerated definitions are the hand model on **every** state
+(no bound, no canonicity hypothesis); `gen_tip5_transfer` restates `permutation_refines_spec` / `trace_spec` /
+`hash10_spec` / `hash_pair_spec` for the regenerated code.  A one-token change of one of these Rust functions changes
+`TF.Gen.Loops.tip5_*`; these theorems are then re-checked or break (e.g. a shortcut in `sbox_layer` that reuses a
+neighbouring lane's 7th power, whose trigger has probability 2⁻⁶⁴ under sampling). -/
+namespace TF.C02
+open TF.Gen TF.BF TF.Model.Tip5 TF.Tip5P
+
+/-- regenerated `split_and_lookup` (`raw_bytes`, the table loop over the 8 bytes, `from_raw_bytes`) = hand model, every word -/
+theorem gen_split_and_lookup_eq_model (w : Nat) : Loops.tip5_split_and_lookup w = split_and_lookup w :=
+  TF.GenBridge.Tip5.gen_split_and_lookup_eq w
+example : Loops.tip5_split_and_lookup 18446744069414584320 = 18446744069414584320 ∧
+    Loops.tip5_split_and_lookup 65537 = 458759 ∧ Loops.tip5_split_and_lookup_ok 65537 = true := by decide +kernel
+
+/-- regenerated `sbox_layer` = hand model, every state -/
+theorem gen_sbox_layer_eq_model (s : State) : Loops.tip5_sbox_layer s.toList = (sbox_layer s).toList :=
+  TF.GenBridge.Tip5.gen_sbox_layer_eq s
+/-- non-vacuity, on the trigger of the seeded shortcut: lane 5 holds the 7th power of lane 4 -/
+example : let x := bfe_new 3
+    (Loops.tip5_sbox_layer [0, 0, 0, 0, x, pow7 x, 0, 0, 0, 0, 0, 0, 0, 0, 0, 0]).getD 5 0 = pow7 (pow7 x) ∧
+    pow7 (pow7 x) ≠ pow7 x := by decide +kernel
+
+/-- regenerated `mds_generated` (limb split, two calls of `generated_function`, recombination loop) = hand model -/
+theorem gen_mds_generated_eq_model (s : State) : Loops.tip5_mds_generated s.toList = (mds_generated s).toList :=
+  TF.GenBridge.Tip5.gen_mds_generated_eq s
+example : (Loops.tip5_mds_generated [300726211092271285, 36561, 0, 0, 0, 0, 0, 0, 0, 0, 0, 0, 0, 0, 0, 0]).length = 16 ∧
+    Loops.tip5_mds_generated_ok [300726211092271285, 36561, 0, 0, 0, 0, 0, 0, 0, 0, 0, 0, 0, 0, 0, 0] = true := by
+  decide +kernel
+
+/-- regenerated `round` = hand model, every state, every round index -/
+theorem gen_round_eq_model (r : Fin 5) (s : State) : Loops.tip5_round s.toList r.val = (round r s).toList :=
+  TF.GenBridge.Tip5.gen_round_eq s r.val r.isLt
+
+/-- regenerated `permutation` = hand model, every state -/
+theorem gen_permutation_eq_model (s : State) : Loops.tip5_permutation s.toList = (permutation s).toList :=
+  TF.GenBridge.Tip5.gen_permutation_eq s
+example : Loops.tip5_permutation_ok (List.replicate 16 (bfe_new 1)) = true ∧
+    (Loops.tip5_permutation (List.replicate 16 (bfe_new 1))).length = 16 := by decide +kernel
+
+/-- regenerated `trace`: the returned array is the hand model's trace, the state left behind is its permutation -/
+theorem gen_trace_eq_model (s : State) :
+    (Loops.tip5_trace s.toList).1 = (trace s).map Vector.toList ∧
+    (Loops.tip5_trace s.toList).2 = (permutation s).toList :=
+  TF.GenBridge.Tip5.gen_trace_eq s
+example : (Loops.tip5_trace (List.replicate 16 (bfe_new 1))).1.length = 6 ∧
+    Loops.tip5_trace_ok (List.replicate 16 (bfe_new 1)) = true := by decide +kernel
+
+/-- regenerated `Tip5::new(domain)` (the `match` on `Domain` read from sponge.rs: `VariableLength` = 0, `FixedLength` = 1;
+    the `while` loop over the capacity lanes) = the hand model's start states -/
+theorem gen_new_eq_model :
+    Loops.tip5_new 0 = some varlenState.toList ∧
+    Loops.tip5_new 1 = some (fixedLengthState (Vector.replicate 10 zero)).toList ∧ Loops.tip5_new_ok 1 = true := by
+  refine ⟨TF.GenBridge.Tip5.gen_new_eq.1, ?_, by decide +kernel⟩
+  rw [TF.GenBridge.Tip5.gen_new_eq.2, TF.GenBridge.Tip5.fixedLengthState_toList]
+  rfl
+
+/-- regenerated `hash_10` (`Self::new(FixedLength)`, `copy_from_slice`, `permutation`, `try_into().unwrap()`) = hand
+    model, every input -/
+theorem gen_hash_10_eq_model (input : Vector Nat 10) :
+    Loops.tip5_hash_10 input.toList = some (hash_10 input).toList :=
+  TF.GenBridge.Tip5.gen_hash_10_eq input
+example : Loops.tip5_hash_10_ok (List.replicate 10 (bfe_new 7)) = true ∧
+    (Loops.tip5_hash_10 (List.replicate 10 (bfe_new 7))).isSome = true ∧
+    Loops.tip5_hash_10_ok (List.replicate 9 (bfe_new 7)) = false := by decide +kernel
+
+/-- **transfer**: the C02 statements for the code as it is in the source now.  For every canonical state the regenerated
+    `permutation` returns canonical words whose values are the specification permutation of the input values; the
+    regenerated `trace` returns six canonical states whose values are the specification trace; the regenerated `hash_10`
+    terminates with a canonical digest whose values are the specification's; `hash_pair` (whose `Digest` glue is
+    modelled by hand) is the first five words of the regenerated permutation of the hand model's start state, with the
+    specification's values -/
+theorem gen_tip5_transfer (s : State) (hs : CanonV s) :
+    (∀ w ∈ Loops.tip5_permutation s.toList, w < P) ∧
+    (Loops.tip5_permutation s.toList).map bfe_value = (TF.Spec.Tip5.permutation (s.map bfe_value)).toList ∧
+    (Loops.tip5_trace s.toList).1.map (fun t => t.map bfe_value)
+      = (TF.Spec.Tip5.trace (s.map bfe_value)).map Vector.toList ∧
+    (∀ v : Vector Nat 10, CanonV v →
+      ∃ d, Loops.tip5_hash_10 (v.map bfe_new).toList = some d ∧ (∀ w ∈ d, w < P) ∧
+        d.map bfe_value = (TF.Spec.Tip5.hash10 v).toList) ∧
+    (∀ l r : Vector Nat 5, CanonV l → CanonV r →
+      ((Loops.tip5_permutation (fixedLengthState (pairInput (l.map bfe_new) (r.map bfe_new))).toList).take 5).map bfe_value
+        = (TF.Spec.Tip5.hashPair l r).toList) := by
+  have hp := permutation_refines_spec s hs
+  have ht := trace_spec s hs
+  have take5 : ∀ t : State, t.toList.take 5 = (Vector.ofFn fun i : Fin 5 => t[i.val]).toList := by
+    intro t
+    rw [vec16_toList t]
+    rfl
+  refine ⟨?_, ?_, ?_, ?_, ?_⟩
+  · rw [gen_permutation_eq_model]
+    exact (forall_mem_toList (p := fun x => x < P) _).mpr hp.1
+  · rw [gen_permutation_eq_model, ← hp.2, Vector.toList_map]
+  · rw [(gen_trace_eq_model s).1, ← ht.2.2.2.1]
+    simp only [List.map_map]
+    apply List.map_congr_left
+    intro t _
+    simp only [Function.comp, Vector.toList_map]
+  · intro v hv
+    have h10 := hash10_spec v hv
+    refine ⟨_, gen_hash_10_eq_model _, (forall_mem_toList (p := fun x => x < P) _).mpr h10.1, ?_⟩
+    rw [← h10.2, Vector.toList_map]
+  · intro l r hl hr
+    have hpair := hash_pair_spec l r hl hr
+    rw [gen_permutation_eq_model, take5, ← hpair.2, Vector.toList_map]
+    rfl
+example : CanonV (Vector.replicate 16 18446744069414584320 : State) := by
+  intro j h; rw [Vector.getElem_replicate]; decide
 
 end TF.C02
